@@ -1,9 +1,11 @@
-(* A CONCRETE operator semantics for the integer core of WebAssembly, instantiating the abstract
-   big-step semantics of Model/Sem.v.  Definitions only, executable.
+(* A CONCRETE operator semantics for the integer core of WebAssembly WITH ONE LINEAR MEMORY, instantiating
+   the abstract big-step semantics of Model/Sem.v.  Definitions only, executable.
    Values are bit patterns (i32: < 2^32, i64: < 2^64); all arithmetic wraps, written out explicitly.
    Locals / globals live in association lists keyed by SLOT; an operator reaches its slot through
    [lslot index] / [gslot index], so that a renumbering of the index spaces is visible (and
-   compensated by a renumbered slot map) rather than assumed away.
+   compensated by a renumbered slot map) rather than assumed away.  The same for the memory index of
+   a memory operator ([mslot]): the machine has ONE 32-bit memory, reached iff [mslot index = 0].
+   Memory is a sparse byte map (address -> byte, absent = 0) with a current and a maximal size in pages.
    Total: a stack underflow, a type mismatch, an unbound slot or any operator outside the core is
    [Halt Trap] (state unchanged). *)
 From Coq Require Import List NArith ZArith Bool. Import ListNotations.
@@ -13,7 +15,10 @@ Open Scope N_scope.
 Inductive val := VI32 (n : N) | VI64 (n : N).
 Record st := { stk : list val (* top first *); locs : list (N * val) (* SLOT -> value *); globs : list (N * val);
                labs : list N (* label records, innermost first: the HEIGHT the operand stack had, below the
-                                parameters, when the block / loop / if-arm was entered *) }.
+                                parameters, when the block / loop / if-arm was entered *);
+               mem : list (N * N) (* THE memory: address -> byte, absent = 0; [mset] keeps the keys unique *);
+               pages : N (* current size in 64 KiB pages *);
+               max_pages : N (* memory.grow succeeds iff the new size is <= this *) }.
 Inductive halt := Trap | Return.
 
 (* ------------------------------------------------------------------ bit-pattern arithmetic *)
@@ -38,6 +43,53 @@ Definition lts32 a b := ((a + h32) mod m32) <? ((b + h32) mod m32).
 Definition shl32 a b := (a * 2 ^ (b mod 32)) mod m32.
 Definition shru32 a b := a / 2 ^ (b mod 32).
 
+Definition h64 : N := 9223372036854775808.      (* 2^63 *)
+Definition lts64 a b := ((a + h64) mod m64) <? ((b + h64) mod m64).
+Definition shl64 a b := (a * 2 ^ (b mod 64)) mod m64.
+Definition shru64 a b := a / 2 ^ (b mod 64).
+(* the signed reading of a bit pattern *)
+Definition sgn32 (a : N) : Z := if a <? h32 then Z.of_N a else (Z.of_N a - 4294967296)%Z.
+Definition sgn64 (a : N) : Z := if a <? h64 then Z.of_N a else (Z.of_N a - 18446744073709551616)%Z.
+(* signed division truncates towards zero ([Z.quot]); the remainder has the sign of the dividend ([Z.rem]),
+   so INT_MIN rem -1 = 0 without a special case; INT_MIN / -1 is handled (trap) by the caller *)
+Definition divs32 a b := z32 (Z.quot (sgn32 a) (sgn32 b)).
+Definition rems32 a b := z32 (Z.rem (sgn32 a) (sgn32 b)).
+Definition divs64 a b := z64 (Z.quot (sgn64 a) (sgn64 b)).
+Definition rems64 a b := z64 (Z.rem (sgn64 a) (sgn64 b)).
+(* arithmetic shift right: floor division of the signed reading ([Z.shiftr] rounds towards minus infinity) *)
+Definition shrs32 a b := z32 (Z.shiftr (sgn32 a) (Z.of_N (b mod 32))).
+Definition shrs64 a b := z64 (Z.shiftr (sgn64 a) (Z.of_N (b mod 64))).
+(* rotations: the count is taken modulo the width; the two halves occupy disjoint bits *)
+Definition rotl32 a b := N.lor ((a * 2 ^ (b mod 32)) mod m32) (a / 2 ^ (32 - b mod 32)).
+Definition rotr32 a b := N.lor (a / 2 ^ (b mod 32)) ((a * 2 ^ (32 - b mod 32)) mod m32).
+Definition rotl64 a b := N.lor ((a * 2 ^ (b mod 64)) mod m64) (a / 2 ^ (64 - b mod 64)).
+Definition rotr64 a b := N.lor (a / 2 ^ (b mod 64)) ((a * 2 ^ (64 - b mod 64)) mod m64).
+(* bit counting ([N.size 0 = 0], [N.size n] = position of the highest set bit + 1): clz 0 = width, ctz 0 = width *)
+Definition clz (w : N) (a : N) : N := w - N.size a.
+Fixpoint ctz_pos (p : positive) : N := match p with xO q => 1 + ctz_pos q | _ => 0 end.
+Definition ctz (w : N) (a : N) : N := match a with 0 => w | Npos p => ctz_pos p end.
+Fixpoint pop_pos (p : positive) : N := match p with xH => 1 | xO q => pop_pos q | xI q => 1 + pop_pos q end.
+Definition popcnt (a : N) : N := match a with 0 => 0 | Npos p => pop_pos p end.
+(* sign extension of the low [2^bits = lo] part into a pattern modulo [md] (half = lo / 2) *)
+Definition sext (lo md : N) (a : N) : N := let x := a mod lo in if x <? lo / 2 then x else x + (md - lo).
+
+(* ------------------------------------------------------------------ linear memory *)
+Definition page_size : N := 65536.
+Fixpoint mget (a : N) (m : list (N * N)) : N :=
+  match m with [] => 0 | (a', b) :: m' => if a =? a' then b mod 256 else mget a m' end.
+(* overwrite the first binding of [a], or add one at the end: keys stay unique *)
+Fixpoint mset (a b : N) (m : list (N * N)) : list (N * N) :=
+  match m with
+  | [] => [(a, b)]
+  | (a', b') :: m' => if a =? a' then (a, b) :: m' else (a', b') :: mset a b m'
+  end.
+(* little-endian: the byte at the lowest address is the least significant *)
+Fixpoint load_bytes (n : nat) (a : N) (m : list (N * N)) : N :=
+  match n with O => 0 | S k => mget a m + 256 * load_bytes k (a + 1) m end.
+(* stores the [n] low bytes of [v] *)
+Fixpoint store_bytes (n : nat) (a v : N) (m : list (N * N)) : list (N * N) :=
+  match n with O => m | S k => store_bytes k (a + 1) (v / 256) (mset a (v mod 256) m) end.
+
 (* ------------------------------------------------------------------ association lists *)
 Fixpoint alookup (k : N) (l : list (N * val)) : option val :=
   match l with
@@ -56,7 +108,16 @@ Fixpoint aset (k : N) (v : val) (l : list (N * val)) : option (list (N * val)) :
   end.
 
 (* ------------------------------------------------------------------ operator shapes *)
-Definition with_stk (s : st) (k : list val) : st := {| stk := k; locs := locs s; globs := globs s; labs := labs s |}.
+Definition with_stk (s : st) (k : list val) : st :=
+  {| stk := k; locs := locs s; globs := globs s; labs := labs s; mem := mem s; pages := pages s; max_pages := max_pages s |}.
+Definition with_locs (s : st) (k : list val) (l : list (N * val)) : st :=
+  {| stk := k; locs := l; globs := globs s; labs := labs s; mem := mem s; pages := pages s; max_pages := max_pages s |}.
+Definition with_globs (s : st) (k : list val) (g : list (N * val)) : st :=
+  {| stk := k; locs := locs s; globs := g; labs := labs s; mem := mem s; pages := pages s; max_pages := max_pages s |}.
+Definition with_mem (s : st) (k : list val) (m : list (N * N)) : st :=
+  {| stk := k; locs := locs s; globs := globs s; labs := labs s; mem := m; pages := pages s; max_pages := max_pages s |}.
+Definition with_pages (s : st) (k : list val) (p : N) : st :=
+  {| stk := k; locs := locs s; globs := globs s; labs := labs s; mem := mem s; pages := p; max_pages := max_pages s |}.
 Definition trap (s : st) : step st halt := Halt Trap s.
 Definition push (v : val) (s : st) : step st halt := Next (with_stk s (v :: stk s)).
 
@@ -77,12 +138,81 @@ Definition div32 (f : N -> N -> N) (s : st) : step st halt :=
   | _ => trap s
   end.
 
+Definition div64 (f : N -> N -> N) (s : st) : step st halt :=
+  match stk s with
+  | VI64 b :: VI64 a :: k => if b =? 0 then trap s else Next (with_stk s (VI64 (f a b) :: k))
+  | _ => trap s
+  end.
+(* signed division: additionally traps on INT_MIN / -1 (the quotient is not representable) *)
+Definition divs32_op (s : st) : step st halt :=
+  match stk s with
+  | VI32 b :: VI32 a :: k =>
+      if b =? 0 then trap s else if (a =? h32) && (b =? m32 - 1) then trap s else Next (with_stk s (VI32 (divs32 a b) :: k))
+  | _ => trap s
+  end.
+Definition divs64_op (s : st) : step st halt :=
+  match stk s with
+  | VI64 b :: VI64 a :: k =>
+      if b =? 0 then trap s else if (a =? h64) && (b =? m64 - 1) then trap s else Next (with_stk s (VI64 (divs64 a b) :: k))
+  | _ => trap s
+  end.
+Definition un32 (f : N -> N) (s : st) : step st halt :=
+  match stk s with VI32 a :: k => Next (with_stk s (VI32 (f a) :: k)) | _ => trap s end.
+Definition un64 (f : N -> N) (s : st) : step st halt :=
+  match stk s with VI64 a :: k => Next (with_stk s (VI64 (f a) :: k)) | _ => trap s end.
+(* i64 comparisons: two i64 in, an i32 out *)
+Definition cmp64 (f : N -> N -> bool) (s : st) : step st halt :=
+  match stk s with
+  | VI64 b :: VI64 a :: k => Next (with_stk s (VI32 (b2n (f a b)) :: k))
+  | _ => trap s
+  end.
+
+(* ---- memory operators.  [mi] = the slot of the operator's memory index; [off] = the offset immediate.
+   Effective address = address operand + offset, NOT wrapped (a 33-bit sum for a 32-bit offset);
+   trap when [ea + width > pages * 65536].  The alignment immediate plays no role. *)
+Definition in_bounds (s : st) (ea : N) (width : nat) : bool := ea + N.of_nat width <=? pages s * page_size.
+Definition mem_load (mi off : N) (width : nat) (post : N -> val) (s : st) : step st halt :=
+  if mi =? 0 then
+    match stk s with
+    | VI32 a :: k =>
+        let ea := a + off in
+        if in_bounds s ea width then Next (with_stk s (post (load_bytes width ea (mem s)) :: k)) else trap s
+    | _ => trap s
+    end
+  else trap s.
+(* [is64]: the type of the value operand (on top; the address is below it) *)
+Definition mem_store (mi off : N) (width : nat) (is64 : bool) (s : st) : step st halt :=
+  if mi =? 0 then
+    match stk s with
+    | v :: VI32 a :: k =>
+        let ea := a + off in
+        match v, is64 with
+        | VI32 n, false | VI64 n, true =>
+            if in_bounds s ea width then Next (with_mem s k (store_bytes width ea n (mem s))) else trap s
+        | _, _ => trap s
+        end
+    | _ => trap s
+    end
+  else trap s.
+Definition mem_size (mi : N) (s : st) : step st halt :=
+  if mi =? 0 then push (VI32 (pages s)) s else trap s.
+(* memory.grow: the old size, or -1 (and no change) when the new size would exceed [max_pages] *)
+Definition mem_grow (mi : N) (s : st) : step st halt :=
+  if mi =? 0 then
+    match stk s with
+    | VI32 d :: k =>
+        if pages s + d <=? max_pages s then Next (with_pages s (VI32 (pages s) :: k) (pages s + d))
+        else Next (with_stk s (VI32 (m32 - 1) :: k))
+    | _ => trap s
+    end
+  else trap s.
+
 Definition local_get (slot : N) (s : st) : step st halt :=
   match alookup slot (locs s) with Some v => push v s | None => trap s end.
 Definition local_set (slot : N) (s : st) : step st halt :=
   match stk s with
   | v :: k => match aset slot v (locs s) with
-              | Some l' => Next {| stk := k; locs := l'; globs := globs s; labs := labs s |}
+              | Some l' => Next (with_locs s k l')
               | None => trap s
               end
   | [] => trap s
@@ -90,7 +220,7 @@ Definition local_set (slot : N) (s : st) : step st halt :=
 Definition local_tee (slot : N) (s : st) : step st halt :=
   match stk s with
   | v :: k => match aset slot v (locs s) with
-              | Some l' => Next {| stk := v :: k; locs := l'; globs := globs s; labs := labs s |}
+              | Some l' => Next (with_locs s (v :: k) l')
               | None => trap s
               end
   | [] => trap s
@@ -100,14 +230,15 @@ Definition global_get (slot : N) (s : st) : step st halt :=
 Definition global_set (slot : N) (s : st) : step st halt :=
   match stk s with
   | v :: k => match aset slot v (globs s) with
-              | Some g' => Next {| stk := k; locs := locs s; globs := g'; labs := labs s |}
+              | Some g' => Next (with_globs s k g')
               | None => trap s
               end
   | [] => trap s
   end.
 
 (* ------------------------------------------------------------------ the core *)
-Definition is_core (o : wop) : bool :=
+(* the operators the machine gives a meaning to (by constructor) *)
+Definition is_core_shape (o : wop) : bool :=
   match o with
   | W_I32Const _ | W_I64Const _
   | W_I32Add | W_I32Sub | W_I32Mul | W_I32And | W_I32Or | W_I32Xor
@@ -116,11 +247,39 @@ Definition is_core (o : wop) : bool :=
   | W_I32DivU | W_I32RemU | W_I32Shl | W_I32ShrU
   | W_I32WrapI64 | W_I64ExtendI32U
   | W_LocalGet _ | W_LocalSet _ | W_LocalTee _ | W_GlobalGet _ | W_GlobalSet _
-  | W_Drop | W_Select | W_Return | W_Unreachable => true
+  | W_Drop | W_Select | W_Return | W_Unreachable
+  (* i32, second batch *)
+  | W_I32Clz | W_I32Ctz | W_I32Popcnt | W_I32DivS | W_I32RemS | W_I32ShrS | W_I32Rotl | W_I32Rotr
+  | W_I32LeS | W_I32LeU | W_I32GtS | W_I32GtU | W_I32GeS | W_I32GeU | W_I32Extend8S | W_I32Extend16S
+  (* i64 *)
+  | W_I64Eqz | W_I64Eq | W_I64Ne | W_I64LtS | W_I64LtU | W_I64LeS | W_I64LeU | W_I64GtS | W_I64GtU | W_I64GeS | W_I64GeU
+  | W_I64DivS | W_I64DivU | W_I64RemS | W_I64RemU | W_I64Shl | W_I64ShrS | W_I64ShrU | W_I64Rotl | W_I64Rotr
+  | W_I64Clz | W_I64Ctz | W_I64Popcnt | W_I64ExtendI32S | W_I64Extend8S | W_I64Extend16S | W_I64Extend32S
+  (* memory *)
+  | W_I32Load _ | W_I64Load _ | W_I32Load8S _ | W_I32Load8U _ | W_I32Load16S _ | W_I32Load16U _
+  | W_I64Load8S _ | W_I64Load8U _ | W_I64Load16S _ | W_I64Load16U _ | W_I64Load32S _ | W_I64Load32U _
+  | W_I32Store _ | W_I64Store _ | W_I32Store8 _ | W_I32Store16 _ | W_I64Store8 _ | W_I64Store16 _ | W_I64Store32 _
+  | W_MemorySize _ | W_MemoryGrow _ => true
   | _ => false
   end.
+(* the memory immediate of a load / store of the core *)
+Definition memarg_of (o : wop) : option w_memarg :=
+  match o with
+  | W_I32Load m | W_I64Load m | W_I32Load8S m | W_I32Load8U m | W_I32Load16S m | W_I32Load16U m
+  | W_I64Load8S m | W_I64Load8U m | W_I64Load16S m | W_I64Load16U m | W_I64Load32S m | W_I64Load32U m
+  | W_I32Store m | W_I64Store m | W_I32Store8 m | W_I32Store16 m | W_I64Store8 m | W_I64Store16 m | W_I64Store32 m => Some m
+  | _ => None
+  end.
+(* walrus keeps [offset mod 2^32] and [2^align mod 2^32] (Gen/Ops.v decode_plain): only a 32-bit offset, and an
+   alignment exponent below 32, survive decode-then-encode.  True on every operator that is not a core load / store. *)
+Definition offset_ok (o : wop) : bool :=
+  match memarg_of o with Some m => wa_offset m <? 2^32 | None => true end.
+Definition align_ok (o : wop) : bool :=
+  match memarg_of o with Some m => wa_align m <? 32 | None => true end.
+Definition memarg_ok (o : wop) : bool := offset_ok o && align_ok o.
+Definition is_core (o : wop) : bool := is_core_shape o && memarg_ok o.
 
-Definition core_op (lslot gslot : N -> N) (o : wop) (s : st) : step st halt :=
+Definition core_op (lslot gslot mslot : N -> N) (o : wop) (s : st) : step st halt :=
   match o with
   | W_I32Const z => push (VI32 (z32 z)) s
   | W_I64Const z => push (VI64 (z64 z)) s
@@ -136,7 +295,7 @@ Definition core_op (lslot gslot : N -> N) (o : wop) (s : st) : step st halt :=
   | W_I64And => bin64 N.land s
   | W_I64Or => bin64 N.lor s
   | W_I64Xor => bin64 N.lxor s
-  | W_I32Eqz => match stk s with VI32 a :: k => Next (with_stk s (VI32 (b2n (a =? 0)) :: k)) | _ => trap s end
+  | W_I32Eqz => un32 (fun a => b2n (a =? 0)) s
   | W_I32Eq => bin32 (fun a b => b2n (a =? b)) s
   | W_I32Ne => bin32 (fun a b => b2n (negb (a =? b))) s
   | W_I32LtU => bin32 (fun a b => b2n (a <? b)) s
@@ -162,12 +321,79 @@ Definition core_op (lslot gslot : N -> N) (o : wop) (s : st) : step st halt :=
       end
   | W_Return => Halt Return s
   | W_Unreachable => Halt Trap s
+  (* ---- i32, second batch (a = first operand, b = second operand = top of stack) *)
+  | W_I32Clz => un32 (clz 32) s
+  | W_I32Ctz => un32 (ctz 32) s
+  | W_I32Popcnt => un32 popcnt s
+  | W_I32DivS => divs32_op s
+  | W_I32RemS => div32 rems32 s
+  | W_I32ShrS => bin32 shrs32 s
+  | W_I32Rotl => bin32 rotl32 s
+  | W_I32Rotr => bin32 rotr32 s
+  | W_I32LeS => bin32 (fun a b => b2n (negb (lts32 b a))) s
+  | W_I32LeU => bin32 (fun a b => b2n (a <=? b)) s
+  | W_I32GtS => bin32 (fun a b => b2n (lts32 b a)) s
+  | W_I32GtU => bin32 (fun a b => b2n (b <? a)) s
+  | W_I32GeS => bin32 (fun a b => b2n (negb (lts32 a b))) s
+  | W_I32GeU => bin32 (fun a b => b2n (b <=? a)) s
+  | W_I32Extend8S => un32 (sext 256 m32) s
+  | W_I32Extend16S => un32 (sext 65536 m32) s
+  (* ---- i64 *)
+  | W_I64Eqz => match stk s with VI64 a :: k => Next (with_stk s (VI32 (b2n (a =? 0)) :: k)) | _ => trap s end
+  | W_I64Eq => cmp64 (fun a b => a =? b) s
+  | W_I64Ne => cmp64 (fun a b => negb (a =? b)) s
+  | W_I64LtS => cmp64 lts64 s
+  | W_I64LtU => cmp64 (fun a b => a <? b) s
+  | W_I64LeS => cmp64 (fun a b => negb (lts64 b a)) s
+  | W_I64LeU => cmp64 (fun a b => a <=? b) s
+  | W_I64GtS => cmp64 (fun a b => lts64 b a) s
+  | W_I64GtU => cmp64 (fun a b => b <? a) s
+  | W_I64GeS => cmp64 (fun a b => negb (lts64 a b)) s
+  | W_I64GeU => cmp64 (fun a b => b <=? a) s
+  | W_I64DivS => divs64_op s
+  | W_I64DivU => div64 N.div s
+  | W_I64RemS => div64 rems64 s
+  | W_I64RemU => div64 N.modulo s
+  | W_I64Shl => bin64 shl64 s
+  | W_I64ShrS => bin64 shrs64 s
+  | W_I64ShrU => bin64 shru64 s
+  | W_I64Rotl => bin64 rotl64 s
+  | W_I64Rotr => bin64 rotr64 s
+  | W_I64Clz => un64 (clz 64) s
+  | W_I64Ctz => un64 (ctz 64) s
+  | W_I64Popcnt => un64 popcnt s
+  | W_I64ExtendI32S => match stk s with VI32 a :: k => Next (with_stk s (VI64 (sext m32 m64 a) :: k)) | _ => trap s end
+  | W_I64Extend8S => un64 (sext 256 m64) s
+  | W_I64Extend16S => un64 (sext 65536 m64) s
+  | W_I64Extend32S => un64 (sext m32 m64) s
+  (* ---- memory: width in bytes; what is pushed / the type of the stored operand *)
+  | W_I32Load m => mem_load (mslot (wa_memory m)) (wa_offset m) 4 VI32 s
+  | W_I64Load m => mem_load (mslot (wa_memory m)) (wa_offset m) 8 VI64 s
+  | W_I32Load8S m => mem_load (mslot (wa_memory m)) (wa_offset m) 1 (fun n => VI32 (sext 256 m32 n)) s
+  | W_I32Load8U m => mem_load (mslot (wa_memory m)) (wa_offset m) 1 VI32 s
+  | W_I32Load16S m => mem_load (mslot (wa_memory m)) (wa_offset m) 2 (fun n => VI32 (sext 65536 m32 n)) s
+  | W_I32Load16U m => mem_load (mslot (wa_memory m)) (wa_offset m) 2 VI32 s
+  | W_I64Load8S m => mem_load (mslot (wa_memory m)) (wa_offset m) 1 (fun n => VI64 (sext 256 m64 n)) s
+  | W_I64Load8U m => mem_load (mslot (wa_memory m)) (wa_offset m) 1 VI64 s
+  | W_I64Load16S m => mem_load (mslot (wa_memory m)) (wa_offset m) 2 (fun n => VI64 (sext 65536 m64 n)) s
+  | W_I64Load16U m => mem_load (mslot (wa_memory m)) (wa_offset m) 2 VI64 s
+  | W_I64Load32S m => mem_load (mslot (wa_memory m)) (wa_offset m) 4 (fun n => VI64 (sext m32 m64 n)) s
+  | W_I64Load32U m => mem_load (mslot (wa_memory m)) (wa_offset m) 4 VI64 s
+  | W_I32Store m => mem_store (mslot (wa_memory m)) (wa_offset m) 4 false s
+  | W_I64Store m => mem_store (mslot (wa_memory m)) (wa_offset m) 8 true s
+  | W_I32Store8 m => mem_store (mslot (wa_memory m)) (wa_offset m) 1 false s
+  | W_I32Store16 m => mem_store (mslot (wa_memory m)) (wa_offset m) 2 false s
+  | W_I64Store8 m => mem_store (mslot (wa_memory m)) (wa_offset m) 1 true s
+  | W_I64Store16 m => mem_store (mslot (wa_memory m)) (wa_offset m) 2 true s
+  | W_I64Store32 m => mem_store (mslot (wa_memory m)) (wa_offset m) 4 true s
+  | W_MemorySize i => mem_size (mslot i) s
+  | W_MemoryGrow i => mem_grow (mslot i) s
   | _ => Halt Trap s
   end.
 
-Definition core_sem (lslot gslot : N -> N) (w : wins) (s : st) : step st halt :=
+Definition core_sem (lslot gslot mslot : N -> N) (w : wins) (s : st) : step st halt :=
   match w with
-  | WOp o => core_op lslot gslot o s
+  | WOp o => core_op lslot gslot mslot o s
   | _ => Halt Trap s
   end.
 
@@ -204,7 +430,8 @@ Definition nparams (tys : N -> option (list valty * list valty)) (bt : blockty) 
   | BT_Func i => match tys i with Some (ps, _) => N.of_nat (length ps) | None => 0 end
   end.
 Definition height (s : st) : N := N.of_nat (length (stk s)).
-Definition with_labs (s : st) (l : list N) : st := {| stk := stk s; locs := locs s; globs := globs s; labs := l |}.
+Definition with_labs (s : st) (l : list N) : st :=
+  {| stk := stk s; locs := locs s; globs := globs s; labs := l; mem := mem s; pages := pages s; max_pages := max_pages s |}.
 Definition enter (tys : N -> option (list valty * list valty)) (bt : blockty) (s : st) : st :=
   with_labs s ((height s - nparams tys bt) :: labs s).
 Definition leave (s : st) : st := with_labs s (tl (labs s)).
@@ -212,7 +439,8 @@ Definition leave (s : st) : st := with_labs s (tl (labs s)).
 Definition bottom (h : N) (k : list val) : list val := skipn (length k - N.to_nat h) k.
 Definition unwind (k : N) (s : st) : st :=
   match labs s with
-  | h :: ls => {| stk := firstn (N.to_nat k) (stk s) ++ bottom h (stk s); locs := locs s; globs := globs s; labs := ls |}
+  | h :: ls => {| stk := firstn (N.to_nat k) (stk s) ++ bottom h (stk s); locs := locs s; globs := globs s; labs := ls;
+                  mem := mem s; pages := pages s; max_pages := max_pages s |}
   | [] => with_stk s (firstn (N.to_nat k) (stk s))
   end.
 (* the approximation used before label records existed: leave the stack alone (exact only when a
@@ -220,10 +448,10 @@ Definition unwind (k : N) (s : st) : st :=
    comparison in Proofs/SemCore.v *)
 Definition unwind_lax (k : N) (s : st) : st := s.
 
-Definition run_core (lslot gslot : N -> N) (tys : N -> option (list valty * list valty))
+Definition run_core (lslot gslot mslot : N -> N) (tys : N -> option (list valty * list valty))
     (fuel : nat) (body : list rt) (s : st) : res st halt :=
-  eval st halt pop_cond pop_index unwind (enter tys) leave (core_sem lslot gslot) (arity tys) (loop_arity tys) fuel body s.
+  eval st halt pop_cond pop_index unwind (enter tys) leave (core_sem lslot gslot mslot) (arity tys) (loop_arity tys) fuel body s.
 (* the same machine with the lax [unwind] and no label records *)
-Definition run_core_lax (lslot gslot : N -> N) (tys : N -> option (list valty * list valty))
+Definition run_core_lax (lslot gslot mslot : N -> N) (tys : N -> option (list valty * list valty))
     (fuel : nat) (body : list rt) (s : st) : res st halt :=
-  eval st halt pop_cond pop_index unwind_lax (fun _ s => s) (fun s => s) (core_sem lslot gslot) (arity tys) (loop_arity tys) fuel body s.
+  eval st halt pop_cond pop_index unwind_lax (fun _ s => s) (fun s => s) (core_sem lslot gslot mslot) (arity tys) (loop_arity tys) fuel body s.
